@@ -111,7 +111,8 @@ func c15Stream(o *out, r *rng, thorough bool) {
 	}
 	specs := []string{"127.0.0.1", "127.0.0.0/8", "127.0.0.0/30", "127.0.0.0/31", "127.0.0.5/32", "127.0.1.0/24", "127.0.0.2-127.0.0.9",
 		"127.0.0.0/255.255.255.0", "127.1.2.3", "::ffff:127.0.0.0/120", "10.0.0.0/8", "::1", "127.0.0.1-127.255.255.254", "127.0.0.16/28",
-		"127.0.0.200-127.0.1.10", "127.0.1.250-127.1.0.3"} // ranges whose low octets decrease while the address grows
+		"127.0.0.200-127.0.1.10", "127.0.1.250-127.1.0.3", // ranges whose low octets decrease while the address grows
+		"::/96", "::127.0.0.0/104", "::1-::ffff:ffff", "::7f00:1"} // genuine IPv6 sets whose LOW 32 bits bracket the IPv4 clients: nobody of them is inside
 	for len(specs) < nSpecs {
 		switch r.intn(3) {
 		case 0:
